@@ -222,3 +222,83 @@ def check(ctx):
             R.instance("ARG", "Argument { type_info: signal_type.clone(), name: None, unit: None, .. }")
     if not args:
         R.violation("ARG", FN + "|none", "no construction of an Argument seen", function=FN, kind="UNRECOGNISED-SHAPE")
+
+
+def check_decoders(ctx, rule="DEC-V"):
+    """DEC-V: the numeric field decoders reachable from construct_arguments (functions / closures returning
+    IResult<&[u8], Value>) return, on every accepting exit, exactly the bytes they were given: `Value::X(rd[i@0:w])` — the
+    w-byte number at offset 0 in the message byte order, unsigned / signed / float as X says, every bit pattern as it is
+    (NaN and infinities included: no clamping, masking or normalisation between the read and the value) — and the
+    remainder `i[w..]`."""
+    from engine.lin import Lin
+    from engine.values import Flt, Int, Slice
+    from rules.lib_wire import INT_W
+    F, R, cg = ctx.facts, ctx.report, ctx.cg
+    reach = sorted(p for p in cg.local_reachable([FN]) if F.body(p) is not None and not F.body(p)["derived"])
+    n = 0
+    for p in reach:
+        b = F.body(p)
+        rt = F.ty_s(b["locals"][0]["ty"])
+        if not re.search(r"Result<\(&\[u8\], dlt::Value\)", rt):
+            continue
+        nargs = b["arg_count"]
+        if b["kind"] == "closure":
+            if nargs != 2:
+                continue
+            names = ["env", "i"]
+        else:
+            if nargs != 1:
+                continue
+            names = ["i"]
+        eng = Engine(F)
+        try:
+            outs = eng.call_path(p, eng.symbolic_args(b, names=names))
+        except Exception as ex:
+            R.notes.append("%s: %s could not be analysed (%r) (not decided)" % (rule, p, ex))
+            continue
+        fl, ln = b["span"]["f"], b["span"]["l"]
+        ok_seen = 0
+        for st, rv in outs:
+            if not isinstance(rv, Enum):
+                continue
+            for vi, fs in rv.variants:
+                if eng.T.variant_name(rv.ty, vi) != "Ok" or not fs:
+                    continue
+                tup = fs[0]
+                if isinstance(tup, Top):
+                    tup = eng.M.force(st, tup)
+                if not isinstance(tup, Struct) or len(tup.fields) != 2:
+                    continue
+                rest, val = tup.fields
+                if isinstance(val, Top):
+                    val = eng.M.force(st, val)
+                if not isinstance(val, Enum) or len(val.variants) != 1:
+                    R.notes.append("%s: %s returns a value whose variant is not decided on an accepting exit (not decided)" % (rule, p))
+                    continue
+                vname = eng.T.variant_name(val.ty, val.variants[0][0])
+                w = INT_W.get(vname)
+                if w is None or not val.variants[0][1]:
+                    continue
+                ok_seen += 1
+                x = val.variants[0][1][0]
+                pre = "rds" if vname.startswith("I") else "rd"
+                wants = {"%s[i@0:%d:%s]" % (pre, w, o) for o in (("1",) if w == 1 else ("T", "BE", "LE"))}
+                got = None
+                if isinstance(x, Int):
+                    got = x.lin.single_sym() if x.lin == Lin.sym(x.lin.single_sym() or "?") else repr(x.lin)
+                elif isinstance(x, Flt):
+                    got = x.term[1] if x.term[0] == "sym" else repr(x.term)
+                why = []
+                if got not in wants:
+                    why.append("the value is %s, not the %d-byte %s read at offset 0 of its input" % (got if got is not None else repr(x)[:80], w, "float" if vname.startswith("F") else "signed" if vname.startswith("I") else "unsigned"))
+                if not (isinstance(rest, Slice) and rest.base == "i" and rest.off == Lin.const(w)):
+                    why.append("the remainder is %s, not input[%d..]" % (getattr(rest, "off", rest), w))
+                key = "%s|%s" % (p, vname)
+                if why:
+                    R.violation(rule, key, "decoder %s (Value::%s): %s — every bit pattern of a long-enough field must be decoded as it is" % (p, vname, "; ".join(why)), function=p, file=fl, line=ln)
+                else:
+                    n += 1
+                    R.obligation(rule, key, "discharged", "Value::%s(%s), remainder input[%d..]" % (vname, got, w))
+                    R.instance(rule, "%s: Value::%s = %s" % (p, vname, got))
+    R.floor(rule, 6)
+    return n
